@@ -235,7 +235,7 @@ def run_group(pid, obs, args, records, log, mk_record):
             rec = mk_record(ob, "default", r)
             rec["extraction_log"] = xlog
             # mechanical scan of the verified text for assumptions
-            trusted = re.findall(r"#\[verifier::external_body\]\s*\n\s*pub fn (\w+)", text)
+            trusted = re.findall(r"#\[verifier::external_body\]\s*\n\s*(?:pub )?(?:proof )?fn (\w+)", text)
             rec["stubs"] = ["external_body (assumed contract): %s" % t for t in trusted]
             rec["stubs"] += ["assume_specification (assumed std contract): %s" % t
                              for t in re.findall(r"assume_specification<[^>]*>\s*\[\s*([\w:]+)\s*\]", text)]
